@@ -64,3 +64,151 @@ Example vecDir_symmetry_example :
          (sq_apply (mksq false true false) (mkpt 0 1)) 0 = (-1)%Z /\
   segmentIntersect (mkpt 0 0) (mkpt 2 2) (mkpt 0 2) (mkpt 2 0) = true.
 Proof. repeat split; vm_compute; reflexivity. Qed.
+
+(* ================================================================================================
+   C16 extension (8): pointOnLine and inPoly under the 8 symmetries of the square (orientation sign tracked),
+   and under translation *)
+
+Lemma dot_sym s a b c d : dot (sq_apply s a) (sq_apply s b) (sq_apply s c) (sq_apply s d) == dot a b c d.
+Proof.
+  destruct s as [[|] [|] [|]]; unfold dot, sq_apply; cbn [sq_swap sq_negx sq_negy px py]; ring.
+Qed.
+Lemma pt_eqb_sq s a b : pt_eqb (sq_apply s a) (sq_apply s b) = pt_eqb a b.
+Proof.
+  apply bool_ext. rewrite !pt_eqb_spec. unfold pt_eq, sq_apply.
+  destruct s as [[|] [|] [|]]; cbn [sq_swap sq_negx sq_negy px py]; split; intros [? ?]; split; lra.
+Qed.
+Lemma sq_scale_cases s x : inject_Z (sq_sign s) * x == x \/ inject_Z (sq_sign s) * x == - x.
+Proof. destruct (sq_sign_unit s) as [-> | ->]; [left|right]; ring. Qed.
+Lemma Qeqb_sq_scale s x : Qeqb (inject_Z (sq_sign s) * x) 0 = Qeqb x 0.
+Proof.
+  apply bool_ext. rewrite !Qeqb_spec. destruct (sq_scale_cases s x) as [E|E]; rewrite E; split; intro; lra.
+Qed.
+
+Theorem pointOnLine_symmetry s a b c :
+  pointOnLine (sq_apply s a) (sq_apply s b) (sq_apply s c) 0 = pointOnLine a b c 0.
+Proof.
+  rewrite !pointOnLine_eq_spec. unfold spec_pointOnLine.
+  rewrite pt_eqb_sq, cross_sym, Qeqb_sq_scale, !dot_sym. reflexivity.
+Qed.
+
+Theorem pointOnLine_translate a b c t :
+  pointOnLine (pt_add a t) (pt_add b t) (pt_add c t) 0 = pointOnLine a b c 0.
+Proof.
+  rewrite !pointOnLine_eq_spec. unfold spec_pointOnLine.
+  assert (E1 : pt_eqb (pt_add a t) (pt_add b t) = pt_eqb a b).
+  { apply bool_ext. rewrite !pt_eqb_spec. unfold pt_eq, pt_add; cbn [px py]. split; intros [? ?]; split; lra. }
+  assert (E2 : cross (pt_add a t) (pt_add b t) (pt_add c t) == cross a b c)
+    by (unfold cross, pt_add; cbn [px py]; ring).
+  assert (E3 : forall p q r u, dot (pt_add p t) (pt_add q t) (pt_add r t) (pt_add u t) == dot p q r u)
+    by (intros; unfold dot, pt_add; cbn [px py]; ring).
+  rewrite E1, E2, !E3. reflexivity.
+Qed.
+
+(* --- inPoly *)
+Lemma nth_map_lt {A B} (f : A -> B) l k d d' : (k < length l)%nat -> nth k (map f l) d' = f (nth k l d).
+Proof. intros H. rewrite (nth_indep _ d' (f d)) by (rewrite map_length; exact H). apply map_nth. Qed.
+
+Lemma mod_lt_len (k n : nat) : (k < n)%nat -> ((k + n - 1) mod n < n)%nat.
+Proof. intros. apply Nat.mod_upper_bound. lia. Qed.
+
+Lemma edge_cross_map_sq s P q i : (i < length P)%nat ->
+  edge_cross (map (sq_apply s) P) (sq_apply s q) i == inject_Z (sq_sign s) * edge_cross P q i.
+Proof.
+  intros Hi. unfold edge_cross. rewrite map_length. cbv zeta.
+  rewrite (nth_map_lt (sq_apply s) P _ pt0 pt0) by (apply mod_lt_len; exact Hi).
+  rewrite (nth_map_lt (sq_apply s) P i pt0 pt0) by exact Hi.
+  apply cross_sym.
+Qed.
+
+(* rotations (orientation sign +1) keep inPoly ... *)
+Theorem inPoly_symmetry_rot s P q cb : sq_sign s = 1%Z ->
+  inPoly (map (sq_apply s) P) (sq_apply s q) cb = inPoly P q cb.
+Proof.
+  intros Hs. apply bool_ext. rewrite !inPoly_spec, map_length.
+  assert (E : forall i, (i < length P)%nat ->
+              edge_cross (map (sq_apply s) P) (sq_apply s q) i == edge_cross P q i).
+  { intros i Hi. rewrite edge_cross_map_sq by exact Hi. rewrite Hs. ring. }
+  split; intros H i Hi; specialize (H i Hi); specialize (E i Hi); destruct cb; lra.
+Qed.
+
+(* ... reflections (sign -1) turn a counter-clockwise polygon into a clockwise one: reverse the vertex order *)
+Lemma edge_cross_rev P q i : (i < length P)%nat ->
+  edge_cross (rev P) q i == - edge_cross P q ((length P - 1 - i + 1) mod length P).
+Proof.
+  intros Hi. unfold edge_cross. rewrite rev_length. cbv zeta.
+  set (n := length P) in *.
+  assert (Hn : (0 < n)%nat) by lia.
+  rewrite (rev_nth P pt0) by (apply mod_lt_len; exact Hi). rewrite (rev_nth P pt0 Hi). fold n.
+  set (j := ((n - 1 - i + 1) mod n)%nat).
+  assert (Hcur : (n - S i = (j + n - 1) mod n)%nat).
+  { unfold j. destruct i as [|i].
+    - replace (n - 1 - 0 + 1)%nat with n by lia. rewrite Nat.mod_same by lia.
+      replace (0 + n - 1)%nat with (n - 1)%nat by lia. rewrite Nat.mod_small by lia. lia.
+    - rewrite (Nat.mod_small (n - 1 - S i + 1)) by lia.
+      replace (n - 1 - S i + 1 + n - 1)%nat with ((n - 1 - S i) + 1 * n)%nat by lia.
+      rewrite Nat.mod_add by lia. rewrite Nat.mod_small by lia. lia. }
+  assert (Hprev : (n - S ((i + n - 1) mod n) = j)%nat).
+  { unfold j. destruct i as [|i].
+    - replace (0 + n - 1)%nat with (n - 1)%nat by lia. rewrite Nat.mod_small by lia.
+      replace (n - 1 - 0 + 1)%nat with n by lia. rewrite Nat.mod_same by lia. lia.
+    - replace (S i + n - 1)%nat with (i + 1 * n)%nat by lia. rewrite Nat.mod_add by lia.
+      rewrite Nat.mod_small by lia. rewrite (Nat.mod_small (n - 1 - S i + 1)) by lia. lia. }
+  rewrite Hprev, Hcur. unfold cross. ring.
+Qed.
+
+Lemma rev_index_surj (n j : nat) : (j < n)%nat -> exists i, (i < n)%nat /\ ((n - 1 - i + 1) mod n = j)%nat.
+Proof.
+  intros Hj. destruct j as [|j].
+  - exists 0%nat. split; [lia|]. replace (n - 1 - 0 + 1)%nat with n by lia. apply Nat.mod_same. lia.
+  - exists (n - S j)%nat. split; [lia|]. replace (n - 1 - (n - S j) + 1)%nat with (S j) by lia.
+    apply Nat.mod_small. exact Hj.
+Qed.
+
+Theorem inPoly_rev P q cb :
+  inPoly (rev P) q cb = true <->
+  forall j, (j < length P)%nat -> if cb then edge_cross P q j <= 0 else edge_cross P q j < 0.
+Proof.
+  rewrite inPoly_spec, rev_length. split.
+  - intros H j Hj. destruct (rev_index_surj (length P) j Hj) as (i & Hi & <-).
+    specialize (H i Hi). pose proof (edge_cross_rev P q i Hi) as E. destruct cb; lra.
+  - intros H i Hi. pose proof (edge_cross_rev P q i Hi) as E.
+    specialize (H ((length P - 1 - i + 1) mod length P)%nat ltac:(apply Nat.mod_upper_bound; lia)).
+    destruct cb; lra.
+Qed.
+
+Theorem inPoly_symmetry_refl s P q cb : sq_sign s = (-1)%Z ->
+  inPoly (rev (map (sq_apply s) P)) (sq_apply s q) cb = inPoly P q cb.
+Proof.
+  intros Hs. apply bool_ext. rewrite inPoly_rev, inPoly_spec, map_length.
+  assert (E : forall i, (i < length P)%nat ->
+              edge_cross (map (sq_apply s) P) (sq_apply s q) i == - edge_cross P q i).
+  { intros i Hi. rewrite edge_cross_map_sq by exact Hi. rewrite Hs. ring. }
+  split; intros H i Hi; specialize (H i Hi); specialize (E i Hi); destruct cb; lra.
+Qed.
+
+Theorem inPoly_translate P q cb t :
+  inPoly (map (fun p => pt_add p t) P) (pt_add q t) cb = inPoly P q cb.
+Proof.
+  apply bool_ext. rewrite !inPoly_spec, map_length.
+  assert (E : forall i, (i < length P)%nat ->
+              edge_cross (map (fun p => pt_add p t) P) (pt_add q t) i == edge_cross P q i).
+  { intros i Hi. unfold edge_cross. rewrite map_length. cbv zeta.
+    rewrite (nth_map_lt (fun p => pt_add p t) P _ pt0 pt0) by (apply mod_lt_len; exact Hi).
+    rewrite (nth_map_lt (fun p => pt_add p t) P i pt0 pt0) by exact Hi.
+    unfold cross, pt_add; cbn [px py]. ring. }
+  split; intros H i Hi; specialize (H i Hi); specialize (E i Hi); destruct cb; lra.
+Qed.
+
+(* non-vacuity: the unit square counter-clockwise, the point (1,1) of the 2x2 square, a quarter turn and a mirror *)
+Example inPoly_symmetry_example :
+  let P := [mkpt 0 0; mkpt 2 0; mkpt 2 2; mkpt 0 2] in
+  inPoly P (mkpt 1 1) false = true /\
+  sq_sign (mksq true true false) = 1%Z /\
+  inPoly (map (sq_apply (mksq true true false)) P) (sq_apply (mksq true true false) (mkpt 1 1)) false = true /\
+  sq_sign (mksq false true false) = (-1)%Z /\
+  inPoly (map (sq_apply (mksq false true false)) P) (sq_apply (mksq false true false) (mkpt 1 1)) false = false /\
+  inPoly (rev (map (sq_apply (mksq false true false)) P)) (sq_apply (mksq false true false) (mkpt 1 1)) false = true /\
+  pointOnLine (sq_apply (mksq true false true) (mkpt 0 0)) (sq_apply (mksq true false true) (mkpt 2 4))
+              (sq_apply (mksq true false true) (mkpt 1 2)) 0 = true.
+Proof. vm_compute. repeat split. Qed.
